@@ -211,13 +211,16 @@ fn judge_pack_panic(ctx: &mut Ctx, p: &PanicInfo, spec: &Spec, workload: &str, c
     }
     ctx.count("outcome:panic", 1);
     ctx.count(&format!("panic_class:{}", p.class.as_str()), 1);
+    // scratch builds (VF_REPO_DIR) report absolute paths: make the signature tree-independent
+    let prefix = format!("{}/", vf_core::repo_dir());
+    let file = p.file.strip_prefix(&prefix).unwrap_or(&p.file).to_string();
     let sig = match known_class(p, spec, trace) {
         Some(class) => {
             ctx.count(&format!("panic_in_known_class:{}", class), 1);
             ctx.sample_by_kind(&format!("panic:{}", class), json!({"id": case_id, "spec": spec.to_json(), "trace": trace, "line": p.line}));
-            format!("pack-panic:{}:{}:{}", p.file, p.line, class)
+            format!("pack-panic:{}:{}:{}", file, p.line, class)
         }
-        None => format!("pack-panic:{}:{}:unclassified:{}", p.file, p.line, case_id),
+        None => format!("pack-panic:{}:{}:unclassified:{}", file, p.line, case_id),
     };
     ctx.violation(
         &sig,
@@ -430,7 +433,7 @@ fn exhaustive(ctx: &mut Ctx) {
     let samples: Vec<(&str, u64, usize, u64)> = if thorough {
         vec![("smp24", 4, 5, 1_500_000)]
     } else {
-        vec![("smp", 3, 5, 400_000), ("smp24", 4, 5, 100_000)]
+        vec![("smp", 3, 5, 1_200_000), ("smp24", 4, 5, 300_000)]
     };
     for (tag, base, n, count) in samples {
         let m = n * (n - 1) / 2;
@@ -627,7 +630,7 @@ pub fn random_spec(r: &mut Rng) -> Spec {
 }
 
 fn random_graphs(ctx: &mut Ctx) {
-    let count: u64 = ctx.tier.pick(120_000, 1_500_000);
+    let count: u64 = ctx.tier.pick(200_000, 2_500_000);
     for k in 0..count {
         if !ctx.mine(k as usize) {
             continue;
